@@ -28,6 +28,7 @@ const (
 	contextKeyRequestID  contextKey = iota
 	contextKeyNSL                   // nameserver lookup marker
 	contextKeyDnameDepth            // DNAME alias chain depth
+	contextKeyV6Walk                // set on the detached IPv6 nameserver walk's context
 )
 
 // contextKeyNSList is the base for the per-qtype nameserver-list keys.
